@@ -222,6 +222,20 @@ func (k *Key) PGPEntity() *openpgp.Entity {
 		PrivateKey: k.private,
 		Identities: map[string]*openpgp.Identity{},
 	}
+	if k.private == nil {
+		// Only the public part is known, which is the case of everybody but the owner of the key:
+		// a self-signature can't be produced. A placeholder identity is enough to verify detached
+		// signatures.
+		uid := packet.NewUserId("name", "", "")
+		isPrimary := true
+		e.Identities[uid.Id] = &openpgp.Identity{
+			Name:          uid.Id,
+			UserId:        uid,
+			SelfSignature: &packet.Signature{IsPrimaryId: &isPrimary, FlagsValid: true, FlagSign: true, FlagCertify: true},
+		}
+		return e
+	}
+
 	// somehow initialize the proper fields with identity, self-signature ...
 	err := e.AddUserId("name", "", "", nil)
 	if err != nil {
